@@ -13,6 +13,9 @@ real code; F12 (Findings/C01_ABA.lean) shows the theorems need BoundedLag there,
 `c01_u32_refines_boundedLag` / `c01_u32_refines_single_thread` / `c01_u32_transfer` /
 `c01_u32_linearizable` prove
 that under BoundedLag (always, for a single thread) `Conc32` IS `Conc` reduced mod 2^32.
+Wave 5: `c01_linearizable_classical` (explicit total order with timestamps), `c01_false_interval`
+(false returns over the call's interval), `c01_aba_reachable` (F12 for every ticket width, capacity
+2; general capacity not proved, see its comment), `c01_u32_lag_tight` (BoundedLag's bounds are tight).
 Nothing is `_partial`: `c01_lin_points_legal`, `c01_quiescent_slots`, `c01_u32_arith` are the
 former partial theorems, kept as the corollaries / lemmas they now are.
 -/
@@ -21,9 +24,12 @@ import Golib.Proof.C01Inv
 import Golib.Proof.C01Lin
 import Golib.Proof.C01LinStep
 import Golib.Proof.C01Hist
+import Golib.Proof.C01Classic
+import Golib.Proof.C01Interval
 import Golib.Proof.C01Progress
 import Golib.Proof.C01U32Run
 import Golib.Proof.C01U32Lin
+import Golib.Proof.C01ABA
 import Golib.Proof.C01Wait
 import Golib.Proof.C01Heap
 
@@ -224,6 +230,112 @@ example :
      (step c sg'.1 2).2.ret = some (.pop 6 true) ∧ sg'.2.pend[2]? = some (some 6) ∧
      sg'.2.popped = [6] ∧ sg'.2.q = [5]) := by decide
 
+/-- `c01_linearizable_classical` (ghost machine, unconditionally).  The classical form: an
+explicit TOTAL ORDER.  The instrumented run `trun` also keeps a clock (steps so far), the
+invocation time `invT` of every call in flight and the LOG of linearization points
+`(t, tid, inv, ev)`; an operation is identified by `(tid, inv)`.  After every schedule `σ`,
+with `i` the thread taking the next step:
+ 1. order = the log, sorted by time (`Pairwise (t < t')`), containing the operations that
+    passed their CAS: the completed successful ones and the pending ones past their CAS;
+ 2. legal sequential history: replaying `log.map ev` on the bounded FIFO of capacity `cap`
+    from the empty queue succeeds (`bqRun`: a `push` needs `|q| < cap`, a `pop v` needs
+    `v` at the head) and yields the current abstract queue;
+ 3. real-time precedence: every entry lies inside the interval of its operation —
+    `inv ≤ t < clock` now, and a response of that operation happens at a later step; the
+    log only grows at its end and the clock counts the steps (`trun_log_prefix`, clause 5),
+    so if operation A responded (time `≥ t_A`) before operation B was invoked (`inv_B ≤ t_B`)
+    then A's entry precedes B's;
+ 4. exactly the observed return values: if the next step of `i` returns, the operation
+    `(i, invT i)` that returns `Push = true` has an entry `push v` with `v` its recorded
+    value — the call's argument by `c01_linearizable` clause 5 —, `Pop = (v, true)` has the
+    entry `pop v`, and a call that returns FALSE has NO entry: false returns are not part of
+    the total order.  Which false returns the property admits is `c01_false_interval`:
+    "only if the ring was full (empty) at some instant during the call OR another operation
+    overlapped it" — a false return that was overlapped is allowed by that wording although
+    no instant with a full (empty) queue need exist, so it cannot always be placed in the
+    order as a failing operation of the sequential specification;
+ 5. stability: the log of a longer run extends the log of every prefix. -/
+theorem c01_linearizable_classical (k : Nat) (hk : 1 ≤ k) (r : Nat) (progs : List (List Call))
+    (σ σ' : List Nat) (i : Nat) :
+    let c : Cfg := { M := 0, cap := 2 ^ k }
+    let x := trun c (initAt c r progs) (ginit progs) (tinit progs) σ
+    let s := x.1
+    let gh := x.2.1
+    let tg := x.2.2
+    (s, gh) = lrun c (initAt c r progs) (ginit progs) σ ∧
+    tg.log.Pairwise (fun a b => a.t < b.t) ∧
+    bqRun c.cap [] (tg.log.map (·.ev)) = some gh.q ∧
+    (tg.clock = σ.length ∧ ∀ e ∈ tg.log, e.inv ≤ e.t ∧ e.t < tg.clock) ∧
+    (∀ ret, (step c s i).2.ret = some ret → RetEntry gh tg i ret) ∧
+    tg.log <+: (trun c (initAt c r progs) (ginit progs) (tinit progs) (σ ++ σ')).2.2.log := by
+  intro c x s gh tg
+  have g := ghost_pow k hk
+  have hx := tinv_trun g (ginv_initAt g r progs) (tinv_initAt (c := c) r progs) σ
+  obtain ⟨hG, hT⟩ := hx
+  have hpre := trun_log_prefix c (initAt c r progs) (ginit progs) (tinit progs) σ
+  refine ⟨trun_fst c _ _ _ σ, hT.sorted, hT.legal, ⟨?_, hT.times⟩,
+    fun ret hr => ret_entry g hG hT i ret hr, ?_⟩
+  · have h2 : tg.clock = (tinit progs).clock + σ.length := hpre.2
+    rw [h2]
+    simp [tinit]
+  · have happ : ∀ (s0 : State) (g0 : LGhost) (t0 : TGhost) (a b : List Nat),
+        trun c s0 g0 t0 (a ++ b) =
+          trun c (trun c s0 g0 t0 a).1 (trun c s0 g0 t0 a).2.1 (trun c s0 g0 t0 a).2.2 b := by
+      intro s0 g0 t0 a b
+      induction a generalizing s0 g0 t0 with
+      | nil => rfl
+      | cons j a ih => simp only [List.cons_append, trun]; exact ih _ _ _
+    rw [happ]
+    exact (trun_log_prefix c _ _ _ σ').1
+
+/-- `c01_false_interval`: false returns as a statement about the call's INTERVAL (the
+wording "returns false only if the ring was full (empty) at some instant during the call or
+another operation overlapped it").  Let `s` be any reachable state in which thread `i` is
+about to execute the first access of a `Push` (`Pop`) — the invocation — and `σ` a schedule
+from `s` such that in every state of the run over every prefix of `σ` no OTHER thread has a
+call in flight (`NoOverlap`: nothing overlaps the call).  If the ring is not full (not
+empty) at the invocation instant, then the first return of thread `i` in that run is not
+`false`.  Contrapositive: a `Push` (`Pop`) returns false only if the ring held `cap` (0)
+elements at the instant of its invocation — an instant during the call — or some other
+operation was in flight at some instant of its interval.  (The instant-of-the-failing-step
+form with the precise overlapping party is `c01_false_justified`.) -/
+theorem c01_false_interval (k : Nat) (hk : 1 ≤ k) (r : Nat) (progs : List (List Call))
+    (σ0 σ1 σ2 : List Nat) (i : Nat) (th : Thread) :
+    let c : Cfg := { M := 0, cap := 2 ^ k }
+    let s := (run c (initAt c r progs) σ0).1
+    s.threads[i]? = some th → NoOverlap c s i (σ1 ++ i :: σ2) →
+    (∀ e ∈ (run c s σ1).2, e.tid = i → e.ret = none) →
+    ((∃ v, th.pc = .pushLoadTail v) → s.tail - s.head < c.cap →
+      (step c (run c s σ1).1 i).2.ret ≠ some (.push false)) ∧
+    (th.pc = .popLoadHead → 0 < s.tail - s.head →
+      ∀ w, (step c (run c s σ1).1 i).2.ret ≠ some (.pop w false)) := by
+  intro c s hth hno hret
+  have g := ghost_pow k hk
+  have hI : Inv c s := inv_run g (inv_initAt g r progs) σ0
+  have hq : atStart th.pc = true → Quiescent s := by
+    intro hst b hb
+    obtain ⟨j, hj⟩ := List.getElem?_of_mem hb
+    by_cases e : j = i
+    · subst e
+      rw [hth] at hj
+      obtain rfl := Option.some.inj hj
+      exact hst
+    · exact hno.here j b e hj
+  refine ⟨fun ⟨v, hpc⟩ hfree => ?_, fun hpc hst w => ?_⟩
+  · have hpre := preP_of_quiescent g hI (hq (by simp [hpc, atStart])) hfree (· = i)
+      (fun j b hj hb => by
+        subst hj
+        rw [hth] at hb
+        obtain rfl := Option.some.inj hb
+        exact Or.inr ⟨v, hpc⟩)
+    exact push_alone_not_false g hI (Or.inl hpre) σ1 σ2 hno hret
+  · have hpre := preQ_of_quiescent g hI (hq (by simp [hpc, atStart])) hst (· = i)
+      (fun j b hj hb => by
+        subst hj
+        rw [hth] at hb
+        obtain rfl := Option.some.inj hb
+        exact Or.inr hpc)
+    exact pop_alone_not_false g hI (Or.inl hpre) σ1 σ2 hno hret w
 /-- `c01_false_justified`: whenever a `Push` is about to return false — at its sequence
 check or at its CAS — the tail moved since the call loaded it (another `Push` overlapped),
 or the ring holds `cap` elements at that instant, or a `Pop` that has claimed position
@@ -449,8 +561,10 @@ ghost machine `Conc` (`M = 0`), for every capacity `2^k`, `1 ≤ k ≤ 31` (all 
 produces), every rotation, thread count, program assignment and schedule `σ`:
 if BoundedLag holds along the GHOST run (`LagRun`: whenever a thread takes a step, the
 ticket it loaded earlier in its call — `pos` of `Push`/`Pop`, the first counter read by
-`Len/IsEmpty/IsFull` — is less than `2^32 − cap` behind the current value of that counter,
-i.e. fewer than `2^32 − cap` operations of that kind succeeded since the load), then the
+`Len/IsEmpty/IsFull` — is at most `2^32 − cap` behind the current value of that counter
+(`Push`, `Pop`, `Len`) resp. less than `2^32 − cap` behind (`IsEmpty`, `IsFull`), i.e. at most
+that many operations of that kind succeeded since the load; these bounds are TIGHT, see
+`c01_u32_lag_tight` — the often quoted `2^32` is not sufficient), then the
 32-bit machine started in the same initial state passes through exactly the ghost states
 with every counter, sequence number and local reduced mod `2^32` (`wrapState`) and emits
 the same events — same thread, same RETURN VALUE, accesses equal up to reduction mod `2^32`
@@ -489,6 +603,51 @@ theorem c01_u32_refines_single_thread (k : Nat) (hk1 : 1 ≤ k) (hk : k ≤ 31) 
     omega
   have hl := solo_lagRun c0 hcap (solo_initAt c0 r prog) σ
   exact ⟨hl, c01_u32_refines_boundedLag k hk1 hk r [prog] σ hl⟩
+
+/-- the ghost state "empty ring at rotation `r`, one thread parked in front of `pc`": it
+satisfies the invariant when `pc` only carries a lower bound of a counter -/
+def parkedAt (c : Cfg) (r : Nat) (pc : Pc) : State :=
+  { initAt c r [[]] with threads := (initAt c r [[]]).threads.set 0 { pc := pc, prog := [] } }
+
+/-- `c01_u32_lag_tight`: the bounds of BoundedLag cannot be relaxed (capacity 2, states that
+satisfy the invariant `Inv`: a thread parked with the stale ticket 0 while the counters
+moved on).
+ 1. `Push` parked between its two loads with lag `2^32 − cap + 1`: the ghost machine sees
+    the slot's sequence number `2^32 ≠ 0` and returns false, the 32-bit machine sees
+    `0 = 0`, passes the check and goes on to its CAS — different branches; with lag exactly
+    `2^32 − cap` the two steps agree (instance of `step32`).
+ 2. `IsFull` parked between its two loads with lag exactly `2^32 − cap` on an EMPTY ring: the
+    32-bit difference of the counters is `cap`, `IsFull` returns true; the ghost machine
+    returns false. -/
+theorem c01_u32_lag_tight :
+    let c0 : Cfg := { M := 0, cap := 2 }
+    let c32 : Cfg := { M := 2 ^ 32, cap := 2 }
+    let s1 := parkedAt c0 (2 ^ 32 - 1) (.pushLoadSeq 7 0)
+    let s2 := parkedAt c0 (2 ^ 32 - 2) (.fullLoadHead 0)
+    let s3 := parkedAt c0 (2 ^ 32 - 2) (.pushLoadSeq 7 0)
+    (Inv c0 s1 ∧ s1.tail - 0 = 2 ^ 32 - 2 + 1 ∧
+      (step c0 s1 0).2.ret = some (.push false) ∧ (step c32 (wrapState s1) 0).2.ret = none) ∧
+    (Inv c0 s2 ∧ s2.tail - 0 = 2 ^ 32 - 2 ∧
+      (step c0 s2 0).2.ret = some (.isFull false) ∧
+      (step c32 (wrapState s2) 0).2.ret = some (.isFull true)) ∧
+    (s3.tail - 0 = 2 ^ 32 - 2 ∧ step c32 (wrapState s3) 0 = wrapRes (step c0 s3 0)) := by
+  intro c0 c32 s1 s2 s3
+  have g : Ghost c0 := ghost_pow 1 (Nat.le_refl 1)
+  have hinv : ∀ r pc, PcOk c0.cap (initAt c0 r [[]]).head (initAt c0 r [[]]).tail
+      (sq (initAt c0 r [[]]).slots) pc → (∀ p, pushAt p pc = false ∧ popAt p pc = false) →
+      Inv c0 (parkedAt c0 r pc) := by
+    intro r pc hok hat
+    have hI := inv_initAt g r [[]]
+    have hth : (initAt c0 r [[]]).threads[0]? = some (mkThread []) := rfl
+    exact inv_local hI hth (fun _ => rfl) rfl
+      (fun p => by rw [(hat p).1, (hat p).2]; exact ⟨rfl, rfl⟩) hok
+  refine ⟨⟨hinv _ _ ?_ ?_, by decide +kernel, by decide +kernel, by decide +kernel⟩,
+          ⟨hinv _ _ ?_ ?_, by decide +kernel, by decide +kernel, by decide +kernel⟩,
+          by decide +kernel, by decide +kernel⟩
+  · simp [PcOk]
+  · intro p; simp [pushAt, popAt]
+  · simp [PcOk]
+  · intro p; simp [pushAt, popAt]
 
 /-- `c01_u32_transfer`: what the C01 theorems say about the 32-bit machine under BoundedLag.
 Along every schedule on which `LagRun` holds:
@@ -633,6 +792,60 @@ theorem c01_u32_linearizable (k : Nat) (hk1 : 1 ≤ k) (hk : k ≤ 31) (r : Nat)
       rw [hstep]
       rfl
     rw [← this]; exact hr
+
+/-- `c01_u32_linearizable_classical`: the classical form for the 32-BIT machine under
+BoundedLag.  Along every schedule on which `LagRun` holds, the clock / log instrumentation run
+on `Conc32` produces exactly the ghost state (abstract queue, records, clock, log) of the
+ghost machine on the same schedule, and the 32-bit state is the ghost state mod `2^32`;
+so the log of the 32-bit run is sorted, replays as a legal sequential bounded-FIFO history
+to the current abstract queue and every entry lies in its operation's interval — clauses
+1–3 and 5 of `c01_linearizable_classical` verbatim; clause 4 (returns) transfers because the
+32-bit machine returns the same values (`c01_u32_transfer`). -/
+theorem c01_u32_linearizable_classical (k : Nat) (hk1 : 1 ≤ k) (hk : k ≤ 31) (r : Nat)
+    (progs : List (List Call)) (σ : List Nat) :
+    let c0 : Cfg := { M := 0, cap := 2 ^ k }
+    let c32 : Cfg := { M := 2 ^ 32, cap := 2 ^ k }
+    let x := trun c0 (initAt c0 r progs) (ginit progs) (tinit progs) σ
+    let x32 := trun c32 (initAt c32 r progs) (ginit progs) (tinit progs) σ
+    LagRun c0 (initAt c0 r progs) σ →
+    x32 = (wrapState x.1, x.2) ∧
+    x32.2.2.log.Pairwise (fun a b => a.t < b.t) ∧
+    bqRun c32.cap [] (x32.2.2.log.map (·.ev)) = some x32.2.1.q ∧
+    (∀ e ∈ x32.2.2.log, e.inv ≤ e.t ∧ e.t < x32.2.2.clock) := by
+  intro c0 c32 x x32 hl
+  have g := ghost_pow k hk1
+  have h := trun32 hk1 hk (inv_initAt g r progs) (ginit progs) (tinit progs) σ hl
+  rw [wrap_initAt] at h
+  have hx : x32 = (wrapState x.1, x.2) := h
+  obtain ⟨_, hT⟩ := tinv_trun g (ginv_initAt g r progs) (tinv_initAt (c := c0) r progs) σ
+  rw [hx]
+  exact ⟨rfl, hT.sorted, hT.legal, hT.times⟩
+
+/-- `c01_aba_reachable` (F12 as a theorem for EVERY ticket width, capacity 2).  For every
+width `w ≥ 2` the machine with `w`-bit tickets (`M = 2^w`) and capacity 2 has a run of
+honest steps — thread 0 loads the tail 0 and the free slot's sequence number and is parked;
+thread 2 fills the ring; then `2^w − 2` pop/push pairs by threads 1 and 2 (lemma `rounds`, by
+induction over the number of pairs: the "warp" lemma, not an evaluation) — after which the
+ring is FULL (`head = 2^w − 2`, `tail` wrapped to 0, slot 0 holds the oldest unpopped
+element), thread 0's stale `CAS(&tail, 0, 1)` succeeds, its `Push` overwrites that element
+with 7 and returns true: successful pushes minus successful pops = 3 > capacity.
+For `w = 32` this is the known finding F12 (ticket-aba): it is an instance, not an
+extrapolation from the width-2 witness of `Findings/C01_ABA.lean`.
+GENERAL CAPACITY `2^k < 2^w` (the full `c01_aba_reachable (w) (k)` of the plan): not proved —
+the round lemma is proved for the two-slot ring, where the slot list is explicit; for `2^k`
+slots the same induction needs the closed form of the full ring at rotation `n`
+(`slotSeq`) and a `List.set`/`List.range` calculation that is not done. -/
+theorem c01_aba_reachable (w : Nat) (hw : 2 ≤ w) :
+    let c : Cfg := { M := 2 ^ w, cap := 2 }
+    let K := 2 ^ w - 2
+    let σ := ABA.abaPrefix ++ ABA.roundSched K
+    ((run c (init c (ABA.abaProgs K)) σ).1 = ABA.R (2 ^ w) K 0 ∧
+      (ABA.R (2 ^ w) K 0).tail = 0 ∧ (ABA.R (2 ^ w) K 0).head = 2 ^ w - 2 ∧
+      (ABA.R (2 ^ w) K 0).slots[0]? = some ⟨2 ^ w - 2 + 1, 9⟩) ∧
+    (run c (ABA.R (2 ^ w) K 0) [0]).2 = [⟨0, .casTail 0 1 true, none⟩] ∧
+    ((run c (init c (ABA.abaProgs K)) (σ ++ [0, 0, 0])).1.slots[0]?).map (·.val) = some 7 ∧
+    ABA.net (ABA.rets (run c (init c (ABA.abaProgs K)) (σ ++ [0, 0, 0])).2) = 3 :=
+  ABA.aba_all_widths w hw
 
 /-- Non-vacuity of the refinement theorems: a two-thread schedule at rotation `2^32 − 1`
 (the counters wrap in the middle of the run) satisfies `LagRun`, and the 32-bit machine
